@@ -30,8 +30,28 @@ def rcoeffs(rng, cls, n, lead_nonzero=False):
   return out
 
 
+CPLX = [1j, -1j, 1, -1, 1 + 1j, 2 - 1j, 0.6 + 0.8j, -0.8 + 0.6j, 0.5j, 3, -2j,
+        0, 0, (3 + 4j) / 5, -1 + 0j, 1 + 0j, 2.5, -0.5 - 0.5j]
+
+
+def rcplx(rng, n):
+  return [rng.choice(CPLX) for _ in range(n)]
+
+
 def cases(ctx):
   rng = ctx.rng
+  for _ in ctx.loop(2500, 150000):
+    # complex coefficients / samples: numeric oracle in complex arithmetic
+    b = rcplx(rng, rng.randint(1, 5))
+    a = [rng.choice([c for c in CPLX if c != 0])] + rcplx(rng, rng.randint(0, 4))
+    n = rng.randint(1, 9)
+    x = [complex(rng.randint(-3, 3), rng.randint(-3, 3)) for _ in range(n)]
+    mem = None if rng.random() < 0.4 else \
+        [complex(rng.randint(-2, 2), rng.randint(-2, 2)) for _ in a[1:]]
+    yield ("cplx", rng.choice(["zlist", "zdict", "llist", "zexpr"]), b, a, x,
+           mem, rng.choice([0, 0.0, 0j, 1 + 1j]))
+  for k in ctx.loop(40, 640):
+    yield ("threads", rng.getrandbits(32), ctx.pick(4, 6), ctx.pick(30, 60))
   for _ in ctx.loop(9000, 600000):
     r = rng.random()
     cls = "E" if rng.random() < 0.8 else "T"
@@ -126,8 +146,104 @@ def exact_class(*dicts):
   return True
 
 
+def numeric_recursion(b, a, x, mem, zero):
+  ys = []
+  for n in range(len(x)):
+    acc = 0
+    for k, bk in enumerate(b):
+      acc = acc + bk * (x[n - k] if n - k >= 0 else zero)
+    for k in range(1, len(a)):
+      if n - k >= 0:
+        yv = ys[n - k]
+      else:
+        yv = mem[k - n - 1] if mem is not None else zero
+      acc = acc - a[k] * yv
+    ys.append(acc / a[0])
+  return ys
+
+
+def run_cplx(ctx, case):
+  _, form, b, a, x, mem, zero = case
+  filt = build(form, b, a)
+  want = numeric_recursion(b, a, x, mem, zero)
+  if all(c == 0 for c in b) and all(c == 0 for c in a[1:]):
+    want = [zero] * len(x)       # the all-zero filter yields the zero value
+  got = list(itertools.islice(iter(filt(list(x), memory=mem, zero=zero)),
+                              len(x) + 3))
+  ctx.count("complex-coefficient-filters")
+  if any(isinstance(c, complex) and abs(c) == 1 and c not in (1, -1)
+         for c in list(b) + list(a)):
+    ctx.count("complex-unit-modulus-coefficient")
+  if len(got) != len(want):
+    ctx.violation("wrong-output-length", case, got=len(got), want=len(want))
+    return True
+  for i, (g, w) in enumerate(zip(got, want)):
+    tol = 1e-9 * (1 + abs(w))
+    err = abs(complex(g) - complex(w))
+    ctx.err("complex-coefficients", err, tol)
+    if err > tol:
+      ctx.violation("complex-coefficients/wrong-output", case, index=i,
+                    got=repr(g), want=repr(w))
+      return True
+  return True
+
+
+def run_threads(ctx, case):
+  """Several threads compile and run *different* filters at the same time
+  (real pre-emption, tiny switch interval): every call must still compute its
+  own difference equation."""
+  import random
+  import sys
+  import threading
+  _, seed, nthreads, ncalls = case
+  problems = []
+  old = sys.getswitchinterval()
+  sys.setswitchinterval(1e-6)
+
+  def worker(tid):
+    rng = random.Random("%s:%s" % (seed, tid))
+    for j in range(ncalls):
+      nb, na = rng.randint(1, 4), rng.randint(0, 3)
+      b = [rng.randint(-5, 5) for _ in range(nb)]
+      a = [rng.choice([1, -1, 2])] + [rng.randint(-3, 3) for _ in range(na)]
+      x = [rng.randint(-4, 4) for _ in range(6)]
+      mem = [rng.randint(-3, 3) for _ in range(na)]
+      try:
+        got = list(ZFilter(list(b), list(a))(list(x), memory=list(mem),
+                                             zero=0))
+      except Exception as exc:  # noqa
+        problems.append((tid, j, b, a, repr(exc)))
+        return
+      want = numeric_recursion([Fraction(v) for v in b],
+                               [Fraction(v) for v in a], x, mem, 0)
+      if [Fraction(g) for g in got] != want:
+        problems.append((tid, j, b, a, got, [str(w) for w in want]))
+        return
+  threads = [threading.Thread(target=worker, args=(t,)) for t in
+             range(nthreads)]
+  try:
+    for t in threads:
+      t.start()
+    for t in threads:
+      t.join(120)
+  finally:
+    sys.setswitchinterval(old)
+  ctx.count("concurrent-filter-calls", nthreads * ncalls)
+  if any(t.is_alive() for t in threads):
+    ctx.count("harness_errors")
+    return True
+  if problems:
+    ctx.violation("concurrent-calls/another-filter's-equation", case,
+                  problems=problems[:3])
+  return True
+
+
 def run_case(ctx, case):
   kind = case[0]
+  if kind == "cplx":
+    return run_cplx(ctx, case)
+  if kind == "threads":
+    return run_threads(ctx, case)
   if kind == "noncausal":
     _, form, num, den, n = case
     try:
@@ -307,3 +423,5 @@ def finish(ctx):
     ctx.need("memory:" + m, 50)
   ctx.need("zero:Lin", 200)
   ctx.need("outputs-compared", 5000)
+  ctx.need("complex-unit-modulus-coefficient", 100)
+  ctx.need("concurrent-filter-calls", 200)
